@@ -239,7 +239,7 @@ def main():
     except (translate_estimate.NoMatch, FileNotFoundError) as e:
         broken.append(("EstimateGen", str(e)))
     try:
-        seek_v, seek_summary = translate_seek.render(src("seek.rs"))
+        seek_v, seek_summary = translate_seek.render(src("seek.rs"), src("series/data/index.rs"), src("series/data.rs"))
         changed = write_if_changed(os.path.join(OUT, "SeekGen.v"), seek_v) or changed
         summary["seek_bounds"] = seek_summary
     except (translate_seek.NoMatch, FileNotFoundError) as e:
